@@ -442,7 +442,12 @@ bool Plan::RefreshDyndepDependents(DependencyScan* scan,
     // build it if the outputs were not known to be dirty.  With dyndep
     // information an output is now known to be dirty, so we want the edge.
     Edge* edge = n->in_edge();
-    assert(edge && !edge->outputs_ready());
+    assert(edge);
+    // The node is dirty since an earlier scan, so its edge is going to run.
+    // The scan just repeated judged the edge by what is known now (e.g. a
+    // restat flag that the dyndep file supplied) and may have found nothing
+    // to do: the outputs are not ready all the same.
+    edge->outputs_ready_ = false;
     map<Edge*, Want>::iterator want_e = want_.find(edge);
     assert(want_e != want_.end());
     if (want_e->second == kWantNothing) {
